@@ -8,6 +8,7 @@ import (
 	"time"
 
 	"verifharness/mon"
+	"verifharness/ref"
 	"verifharness/world"
 )
 
@@ -427,6 +428,30 @@ func c03(x *mon.Ctx) {
 			}
 		})
 	}
+	// ---- Intel's own, genuinely signed collateral served to a verifier that pinned a private root only: whoever signs the
+	//      collateral must chain to the caller's pool, Intel included (no fall-back to the embedded root)
+	for i := 0; i < x.Pick(3, 20); i++ {
+		w := intelCollateralWorld(x.Rand(fmt.Sprint("intel-collateral", i)))
+		for name, v := range map[string]struct {
+			roots  []*x509Cert
+			expect string
+		}{
+			"pool=private+intel": {[]*x509Cert{w.PKI.Root.Cert, ref.IntelRoot}, "accept"},
+			"pool=private-only":  {[]*x509Cert{w.PKI.Root.Cert}, "reject"},
+			"pool=intel-only":    {[]*x509Cert{ref.IntelRoot}, "reject"},
+			"pool=empty":         {[]*x509Cert{}, "reject"},
+		} {
+			ws := w.Clone()
+			ws.Roots = v.roots
+			c := ws.Case(world.LColl, "intel-signed-collateral-under-private-pki", fmt.Sprintf("w%d/%s", i, name))
+			c.Expect = v.expect
+			check(x, i, c)
+		}
+		emb := w.Case(world.LColl, "intel-signed-collateral-under-private-pki", fmt.Sprintf("w%d/embedded-root", i))
+		emb.Embedded, emb.Roots, emb.Expect = true, nil, "reject"
+		check(x, i, emb)
+	}
+	x.Require("intel-signed-collateral-under-private-pki", x.Pick(3, 20), 4*x.Pick(3, 20), 5*x.Pick(3, 20))
 	x.Require("twin", nw, 0, nw)
 	x.Require("decorated-tcb-status-outofdate", 0, nw*20, nw*20)
 	x.Require("decorated-qe-status-outofdate", 0, nw*20, nw*20)
